@@ -1064,13 +1064,13 @@ class slice(Stream):
 
     def update(self, x, who=None, metadata=None):
         if (self.state >= self.star and (self.state - self.star) % self.step == 0
-                and not (self.end and self.state >= self.end)):
+                and not (self.end is not None and self.state >= self.end)):
             self.emit(x, metadata=metadata)
         self.state += 1
         self._check_end()
 
     def _check_end(self):
-        if self.end and self.state >= self.end:
+        if self.end is not None and self.state >= self.end:
             # we're done
             for upstream in self.upstreams:
                 if self in upstream.downstreams:
